@@ -50,6 +50,21 @@ def run(tier, seed):
                 tc.queries += ["data", "zero", "cv", "setrhs", "export"] + treecheck.moves(tc, rng) + ["rebuild", "export", "data"]
                 cases.append(tc.text())
             vlib.differential(rep, tbin, cases, sdir, "tree", canon=lambda c, l: l.split(" || ")[0], clause=lambda c: "tree"); families += 1
+            # 1b. heights >= 32 (only reachable in 1-D inside the index guard): the library computes 1 << level in int (known finding D16)
+            hc = []
+            for H in (32, 33, 40, 46):
+                tc = T.TreeCase(1, 0, H, rng.choice([1, 3, 10000000]), rng.below(2), T.gen_positions(rng, 1, H, rng.range(1, 6), "uniform"))
+                tc.queries = ["data"]
+                hc.append(tc.text())
+            p = os.path.join(sdir, "tall.cases"); vlib.write_cases(p, hc)
+            for c, i in zip(hc, vlib.run_impl(tbin, p)):
+                rep.evaluations += 1
+                if i.startswith("ABORT") and "ubsan" in i and ("shift" in i or "overflow" in i):
+                    rep.violation(dict(kind="abort", clause="height-beyond-int-shift", has_input=True),
+                                  "a tree of height %s (1-D, indices fit 63 bits) hits an int-typed shift: %s" % (c.split()[3], i), dict(case=c, impl=i))
+                elif i.startswith("ABORT"):
+                    rep.violation(dict(kind="abort", clause="tall-tree", has_input=True), "tall 1-D tree aborted on `%s`: %s" % (c[:120], i), dict(case=c, impl=i))
+            families += 1
         # 2. sequential executor incl. periodic lists, all stop levels and flag histories
         ebin, err = vlib.build_harness("h_algo_exec", sources=["h_algo.cpp"], defines=["FAMILY_EXEC"])
         if ebin:
